@@ -596,7 +596,7 @@ mod imp {
         let text = input["text"].as_str().unwrap_or("").to_string();
         let mut t = StringTokenizer::with_input(&text);
         match t.next() {
-            Err(e) => json!({"error": format!("{:?}", e)}),
+            Err(e) => json!({"error": format!("{:?}", e), "at": [e.loc().line(), e.loc().col()]}),
             Ok(None) => json!({"none": true}),
             Ok(Some(tok)) => {
                 let span = json!([tok.loc.start().line(), tok.loc.start().col(), tok.loc.end().line(), tok.loc.end().col()]);
